@@ -31,10 +31,10 @@ MIX = {
     'c11': dict(write=14, dele=6, copy=2, read=40, chain=26, bad=4, value=3, reattach=0, validate=5, attach=4, deep=20),
     'c12': dict(write=30, dele=8, copy=3, read=2, chain=4, bad=42, value=8, reattach=3, validate=0, attach=12, deep=8),
     'c05': dict(write=50, dele=10, copy=5, read=2, chain=8, bad=10, value=8, reattach=0, validate=0, attach=14, deep=12),
-    'c04': dict(write=35, dele=10, copy=2, read=2, chain=4, bad=4, value=5, reattach=0, validate=38, attach=4, selfassign=9, deep=8),
+    'c04': dict(write=35, dele=10, copy=2, read=2, chain=4, bad=4, value=5, reattach=0, validate=38, attach=4, selfassign=9, c04extra=6, deep=8),
 }
 
-SEG_POOL = ['PID', 'PV1', 'NK1', 'OBX', 'EVN', 'MSA', 'ORC', 'OBR', 'AL1', 'DG1', 'IN1', 'NTE', 'PD1', 'QRD', 'ERR']
+SEG_POOL = ['PID', 'PV1', 'NK1', 'OBX', 'EVN', 'MSA', 'ORC', 'OBR', 'AL1', 'DG1', 'IN1', 'NTE', 'PD1', 'QRD', 'ERR', 'QPD', 'RDT']
 MSG_POOL = ['ADT_A01', 'ORU_R01', 'ADT_A02', 'ADT_A03', 'BAR_P01', 'DFT_P03', 'ACK', 'ADT_A06', 'ADT_A09', 'ADT_A17']
 
 
@@ -568,7 +568,15 @@ class Gen:
             rep_i = [id(k) for k in node.reps('fld', child.key)].index(id(child))
             reg = rng.randrange(100, 200)
             self.pending.append({'k': 'del', 'p': path, 'via': rng.choice(['childitem', 'pop', 'remove']), 'ci': ci})
-            self.pending.append({'k': 'attach_held', 'p': path, 'reg': reg, 'via': rng.choice(['add', 'parent_attr'])})
+            target = {'p': path}
+            if rng.random() < 0.4:
+                # ... into another element: the deleted child still remembers its former parent
+                ri, mk = self.ensure_side(world, 'seg', seg_name)
+                if mk is None:
+                    target = {'p': [], 'root': ri}
+            op2 = {'k': 'attach_held', 'reg': reg, 'via': rng.choice(['add', 'parent_attr'])}
+            op2.update(target)
+            self.pending.append(op2)
             return {'k': 'grab', 'p': path + [['fld', child.key, rep_i, 0]], 'reg': reg}
         strict_full = self.strict and card[1] != -1 and reps >= card[1]
         if kind in ('parent_kw', 'parent_attr'):
@@ -649,8 +657,6 @@ class Gen:
                 dst_i = rng.choice([i for i in range(len(reps_same)) if i != src_i])
                 return {'k': 'set', 'p': path, 'c': ['fld', src.key, dst_i, 0], 'via': 'item', 'bad': 'elem_assign',
                         'v': {'elem': [0, path + [['fld', src.key, src_i, 0]]]}}
-            if self.mixname == 'c09':
-                return None
             ri, mk = self.ensure_side(world, 'seg', seg_name)
             if mk is not None:
                 return mk
@@ -716,6 +722,32 @@ class Gen:
         follow.append({'k': 'held_value', 'reg': reg, 'text': text, 'bad': 'stale_handle'})
         self.pending.extend(follow)
         return {'k': 'hold', 'p': hpath, 'reg': reg}
+
+    def op_c04extra(self, world):
+        """two C04-specific histories: an unknown (unnamed) field left in a segment -- also in segments
+        that end with a varies field --, and a Z segment that is added and removed again (the element is
+        back to what it was: so must be the verdict)"""
+        rng = self.rng
+        if self.strict:
+            return None
+        if rng.random() < 0.5:
+            targets = self.seg_targets(world)
+            if not targets:
+                return None
+            path, seg_name, node = rng.choice(targets)
+            self.pending.append({'k': 'validate', 'variant': 'errors', 'p': []})
+            return {'k': 'add_unknown', 'p': path, 'text': gen.valid_literal('ST', self.tok, rng), 'bad': 'unknown_element'}
+        if self.kind != 'msg':
+            return None
+        m = self.model(world)
+        if m is None:
+            return None
+        name = rng.choice(['ZZ1', 'ZAB', 'ZXY'])
+        n = len(m.kids)
+        self.pending.append({'k': 'del', 'p': [], 'via': rng.choice(['attr', 'item', 'childitem', 'pop', 'remove']),
+                             'c': ['seg', name, 0, 0], 'ci': n})
+        self.pending.append({'k': 'validate', 'variant': 'errors', 'p': []})
+        return {'k': 'add', 'p': [], 'c': ['seg', name, 0, 0], 'via': 'factory'}
 
     def op_selfassign(self, world):
         rng = self.rng
